@@ -1051,7 +1051,10 @@ func runGoReuse(c *Case, tr *Trace) {
 		for _, h := range hist {
 			if err := it.Fold(newValue(&h.T, &h.V).Elem().Interface()); err != nil {
 				res["histerr"] = err.Error()
-				return
+				if on, _ := c.Sub["afterfail"].(bool); !on {
+					return
+				}
+				// sub.afterfail: the iterator is used again after a Fold that failed half-way
 			}
 		}
 		mark := len(rec.Events)
